@@ -243,6 +243,8 @@ LIST_REAL = [
     ("{recv}.{m}(i, {{0: false, 1: true}}[i])", "key"),
     ("{recv}.{m}(i, i == 2 ? 1 / 0 > 0 : i == 1)", "div0"),
     ("{recv}.{m}(i, i == 2 ? unbound_x : i == 1)", "unbound"),
+    # elements that are equal for Python (0.0 == -0.0 == 0 == false) and give three different outcomes: false, true, error
+    ("{recv}.{m}(i, 1.0 / i < 0.0)", "equal-elements", {0: "0.0", 1: "-0.0", 2: "0"}),
 ]
 
 
@@ -259,11 +261,13 @@ def error_text_growth(acc) -> bool:
     """len(str(error)) + len(repr(error.args)) for n = 6, 10, 14 consecutive erroring elements; True when it grows geometrically."""
     bad = False
     for m in ("all", "exists"):
-        for real, (tmpl, kind) in enumerate(LIST_REAL):
+        for real, entry in enumerate(LIST_REAL):
+            tmpl, kind = entry[:2]
+            e2 = entry[2][2] if len(entry) > 2 else "2"
             for r in "IC":
                 sizes = []
                 for n in (6, 10, 14):
-                    src = tmpl.format(recv="[" + ", ".join(["2"] * n) + "]", m=m)
+                    src = tmpl.format(recv="[" + ", ".join([e2] * n) + "]", m=m)
                     out = core.api_eval(r, src, {}, raw=True)
                     acc.hook("evaluate:" + r)
                     acc.evaluations += 1
@@ -282,14 +286,15 @@ def error_text_growth(acc) -> bool:
                     acc.violation(
                         f"{r} macro {m} error-text-grows-geometrically err={kind}",
                         f"{'interpreted' if r == 'I' else 'compiled'}: the error of [2 x n].{m}(...) ({kind}) carries {sizes[0]} / {sizes[1]} / {sizes[2]} characters for n = 6 / 10 / 14 erroring elements: it multiplies per element, so a list of a few dozen erroring elements does not finish evaluating",
-                        {"kind": "quant", "src": tmpl.format(recv="[" + ", ".join(["2"] * 14) + "]", m=m), "runner": r, "expected": "E"},
+                        {"kind": "quant", "src": tmpl.format(recv="[" + ", ".join([e2] * 14) + "]", m=m), "runner": r, "expected": "E"},
                     )
     return bad
 
 
 def check_quant(acc, m, seq, real):
-    tmpl, kind = LIST_REAL[real]
-    src = tmpl.format(recv="[" + ", ".join(str(x) for x in seq) + "]", m=m)
+    tmpl, kind = LIST_REAL[real][:2]
+    emap = LIST_REAL[real][2] if len(LIST_REAL[real]) > 2 else None
+    src = tmpl.format(recv="[" + ", ".join((emap[x] if emap else str(x)) for x in seq) + "]", m=m)
     exp = quant_expected(m, seq)
     if 2 in seq:
         acc.nt(src)
